@@ -208,6 +208,12 @@ func RunModel(conf *cfg.Config, ops []probe.Op, env map[string]string) []Expect 
 			e.Judged = true
 		case "overridesvc":
 			o := ref.OverrideSvc{Ctor: op.Ctor, Scope: op.Scope}
+			if len(op.Tags) > 0 {
+				o.Tags = map[string]int{}
+				for _, t := range op.Tags {
+					o.Tags[t.Name] = t.Prio
+				}
+			}
 			for _, d := range op.Deps {
 				o.Deps = append(o.Deps, depM(d))
 			}
